@@ -8,6 +8,7 @@
   trees of any size, depth and any repetition pattern of sibling names.
 -/
 import XsVerif.Model.Paths
+import XsVerif.Lemmas.NsMapper
 
 set_option linter.unusedSimpArgs false
 
@@ -135,5 +136,76 @@ example : let t := T.node "r" [.node "b" [], .node "a" [], .node "b" [.node "c" 
     selectAbs t ("r", [⟨"b", some 2⟩, ⟨"c", none⟩]) = [[2, 0]] ∧ Valid t [2, 0] := by
   refine ⟨by decide, by decide, ?_⟩
   exact ⟨_, rfl, _, rfl, trivial⟩
+
+
+/-! ### names in the path: rendered with the error's namespace map, read back with the same map -/
+open XsVerif.NsMapper
+
+/-- how a reader of the path resolves a step name (XPath 2.0 with the default element namespace
+    taken from the map's empty prefix — the convention of `XMLResource.find`/elementpath) -/
+def resolveName (ns : Map) : PName → Option QN
+  | .braced u l => some ⟨u, l⟩
+  | .pre p l => match ns.get p with
+    | some u => if u = "" then none else some ⟨u, l⟩
+    | none => none
+  | .loc l => match ns.get "" with
+    | some d => some ⟨d, l⟩
+    | none => some ⟨"", l⟩
+
+theorem head_filter_mem {ns : Map} {u p : String} {rest : List String}
+    (h : (ns.filter fun e => e.2 = u).map (·.1) = p :: rest) : ns.Nodup → ns.get p = some u := by
+  intro hn
+  have : p ∈ (ns.filter fun e => e.2 = u).map (·.1) := by rw [h]; exact List.mem_cons_self
+  obtain ⟨⟨a, b⟩, hm, e⟩ := List.mem_map.mp this
+  simp only [List.mem_filter, decide_eq_true_eq] at hm
+  simp only at e; subst e
+  rw [Map.get_of_mem hn hm.1, hm.2]
+
+/-  Full statement (false for the code as it is, finding C19-F1):
+      ∀ ns q, ns.Nodup → resolveName ns (renderName ns q) = some q
+    A tag in no namespace is written as a bare local name; when the map binds the empty prefix the
+    reader takes it into that namespace and the path selects nothing. -/
+theorem render_resolves_partial (ns : Map) (q : QN) (hn : ns.Nodup)
+    (hguard : q.ns = "" → ns.get "" = none ∨ ns.get "" = some "") :
+    resolveName ns (renderName ns q) = some q := by
+  obtain ⟨u, l⟩ := q
+  unfold renderName
+  by_cases h0 : u = ""
+  · subst h0
+    simp only [if_true, resolveName]
+    rcases hguard rfl with h | h <;> simp [h]
+  · simp only [h0, if_false]
+    split
+    · rfl
+    · split
+      · rfl
+      · rename_i p rest hf
+        have hp := head_filter_mem hf hn
+        split
+        · simp [resolveName, hp, h0]
+        · rename_i hpe
+          have hpe' : p = "" := by
+            by_cases e : p = ""
+            · exact e
+            · exact absurd e hpe
+          subst hpe'
+          split
+          · rename_i p2 r2
+            have : (ns.filter fun e => e.2 = u).map (·.1) = "" :: p2 :: r2 := hf
+            have hm : p2 ∈ (ns.filter fun e => e.2 = u).map (·.1) := by rw [this]; simp
+            obtain ⟨⟨a, b⟩, hm2, e⟩ := List.mem_map.mp hm
+            simp only [List.mem_filter, decide_eq_true_eq] at hm2
+            simp only at e; subst e
+            simp [resolveName, Map.get_of_mem hn hm2.1, hm2.2, h0]
+          · simp [resolveName, hp]
+
+example : resolveName [("t", "urn:t")] (renderName [("t", "urn:t")] ⟨"urn:t", "item"⟩) = some ⟨"urn:t", "item"⟩ := by
+  decide
+
+/-- `<root xmlns="urn:t"><head xmlns=""><date>…`: the step for the no-namespace `date` is written
+    `date` and read as `{urn:t}date`. -/
+theorem render_counterexample :
+    renderName [("", "urn:t")] ⟨"", "date"⟩ = .loc "date" ∧
+    resolveName [("", "urn:t")] (.loc "date") = some ⟨"urn:t", "date"⟩ := by decide
 
 end XsVerif.Props.C19
